@@ -182,3 +182,15 @@ func (server *CqlServer) VerifListenAddr() string {
 	}
 	return server.listener.Addr().String()
 }
+
+// VerifRegistrySize returns the number of entries in the server's registry of client connections (-1 when the server
+// was never started).
+func (server *CqlServer) VerifRegistrySize() int {
+	h := server.connectionsHandler
+	if h == nil {
+		return -1
+	}
+	h.connectionsLock.Lock()
+	defer h.connectionsLock.Unlock()
+	return len(h.connections)
+}
